@@ -16,16 +16,16 @@ def run(ctx, repo):
         'validated and the sentinel appended whatever the chunking (R-SENTINEL-APPENDED); constant read size '
         '(R-BOUNDED-READ); the C input handler\'s cache arithmetic (R-PYX-INPUT-CACHE).')
     ctx.trust('CPython ast; sa.charworld constant evaluator; linear-form normalisation of index arithmetic')
-    RR.r_incremental_decode(ctx, repo)
-    RR.r_lookahead_sufficient(ctx, repo)
-    RR.r_bom_needs_two(ctx, repo)
-    RR.r_positions(ctx, repo)
-    RD.r_sentinel_appended(ctx, repo)
-    RO.r_bounded_read(ctx, repo)
-    RR.r_pyx_input_cache(ctx, repo)
-    RX.r_decoded_unmodified(ctx, repo)
-    RX.r_buffer_encapsulated(ctx, repo)
-    RX.r_stale_snapshot(ctx, repo)
+    ctx.call(RR.r_incremental_decode, repo)
+    ctx.call(RR.r_lookahead_sufficient, repo)
+    ctx.call(RR.r_bom_needs_two, repo)
+    ctx.call(RR.r_positions, repo)
+    ctx.call(RD.r_sentinel_appended, repo)
+    ctx.call(RO.r_bounded_read, repo)
+    ctx.call(RR.r_pyx_input_cache, repo)
+    ctx.call(RX.r_decoded_unmodified, repo)
+    ctx.call(RX.r_buffer_encapsulated, repo)
+    ctx.call(RX.r_stale_snapshot, repo)
 
 if __name__ == '__main__':
     sys.exit(report.main('C07', 'other', run))
